@@ -2,6 +2,7 @@ package verifsim
 
 import (
 	"fmt"
+	"github.com/idena-network/idena-go/core/state"
 	"strings"
 	"testing"
 	"time"
@@ -86,8 +87,71 @@ func TestVerifC02(t *testing.T) {
 		}
 		s := NewScenario(w, verifutil.NewRng(seed, 2))
 		s.Hostile, s.MaxTxs, s.PartialPct = 35, 7, 20
+		ceremonyPairsDone := map[uint16]int{}
 		for i := 0; i < steps; i++ {
 			rep.Progress("C02 scenario %d seed %d step %d", sc, seed, i)
+			// ceremony transactions reaching the nodes in different orders: a candidate signs two
+			// transactions of one ceremony type with consecutive nonces; the later one reaches node A
+			// first (it waits in A's queue), the earlier one is mined by node B; then A proposes
+			if st := w.View().AppState.State; st.ValidationPeriod() >= state.ShortSessionPeriod && st.ValidationPeriod() <= state.LongSessionPeriod && ceremonyPairsDone[st.Epoch()] < 3 {
+				var A, B *Replica
+				for _, r := range w.Replicas {
+					if r.Alive && !r.Observer && r.CanPropose() {
+						if A == nil {
+							A = r
+						} else if B == nil {
+							B = r
+						}
+					}
+				}
+				var cand *Actor
+				for _, a := range w.SortedActors() {
+					if id := st.GetIdentity(a.Addr); state.IsCeremonyCandidate(id) && !isNode(w, a) && a != w.God && !st.HasValidationTx(a.Addr, types.SubmitLongAnswersTx) && !st.HasValidationTx(a.Addr, types.SubmitShortAnswersTx) && !st.HasValidationTx(a.Addr, types.SubmitAnswersHashTx) {
+						if n := w.NextNonce(a); n == w.StateNonce(a) {
+							cand = a
+							break
+						}
+					}
+				}
+				if A != nil && B != nil && cand != nil {
+					ceremonyPairsDone[st.Epoch()]++
+					typ := types.SubmitLongAnswersTx
+					if st.ValidationPeriod() == state.ShortSessionPeriod {
+						typ = types.SubmitAnswersHashTx
+					}
+					ns := w.View().AppState.ValidatorsCache.NetworkSize()
+					n := w.StateNonce(cand)
+					t1 := c14CeremonyTxAt(st, ns, s.R, cand, typ, n, st.Epoch())
+					t2 := c14CeremonyTxAt(st, ns, s.R, cand, typ, n+1, st.Epoch())
+					e2 := A.TxPool.AddExternalTxs(validation.InboundTx, t2)
+					e1 := B.TxPool.AddExternalTxs(validation.InboundTx, t1)
+					rep.Count("ceremony_pairs:"+TxName(typ)+":later-first="+ErrClass(e2)+":earlier="+ErrClass(e1), 1)
+					if e1 == nil && e2 == nil {
+						for _, p := range []*Replica{B, A} {
+							s.MoveClock()
+							if !p.CanPropose() {
+								break
+							}
+							res := w.NextBlockBy(p)
+							rep.Eval(1)
+							rep.Count("ceremony_pair_blocks", 1)
+							for _, tx := range res.Block.Body.Transactions {
+								if tx.Hash() == t1.Hash() {
+									rep.Count("ceremony_pair_earlier_tx_mined", 1)
+								}
+								if tx.Hash() == t2.Hash() {
+									rep.Count("ceremony_pair_later_tx_mined", 1)
+								}
+							}
+							if len(res.Errs) > 0 {
+								reportReject(rep, sc, i, res)
+								break
+							}
+							CheckAgreement(w, rep, "C02", res.Block)
+						}
+					}
+				}
+			}
 			// hostile mempool: interacting bursts of one sender
 			if s.R.Intn(3) == 0 {
 				for _, g := range w.Burst(s.R) {
